@@ -1,5 +1,5 @@
 CONSTANTS
-  NValues = 13
+  NValues = 14
 INIT Init
 NEXT Next
 CONSTRAINT DumpCase
